@@ -64,6 +64,7 @@ def _case(draw, unit):
         W = draw(dwtu.size_strategy(Lr, 1, cap=24))
     return {'direction': unit.get('direction') or draw(st.sampled_from(['analysis', 'synthesis'])), 'custom': custom,
             'wcol': wc, 'wrow': wr, 'four': four or draw(st.booleans()), 'mode': mode,
+            'mode_spelling': 'per' if (mode == 'periodization' and draw(st.integers(0, 2)) == 0) else mode,
             'size': [H, W], 'N': draw(st.sampled_from([1, 2, 3])), 'C': draw(st.sampled_from([1, 2, 3])),
             'dtype': draw(st.sampled_from(['f64', 'f64', 'f64', 'f32'])),
             'rx': draw(core.recipe_strategy()), 'k': draw(st.integers(0, 10**6))}
@@ -107,16 +108,19 @@ def run_case(case):
         different = (cu['lo_c'], cu['hi_c']) != (cu['lo_r'], cu['hi_r'])
         filts = tuple(box(cu['lo_c'], cu['hi_c']) + (box(cu['lo_r'], cu['hi_r']) if (case['four'] or different) else []))
 
+    msp = case.get('mode_spelling', mode)        # 'per' is the accepted short spelling of 'periodization'
+    r.label('mode_spelled_per' if msp != mode else None)
+
     def both(x):
         with dwtu.default_dtype(tdt):
             if ana:
                 t = torch.tensor(x, dtype=tdt)
-                a = lib(ll.afb2d, t, filts, mode)
-                b = lib(ll.afb2d_nonsep, t.clone(), filts, mode)
+                a = lib(ll.afb2d, t, filts, msp)
+                b = lib(ll.afb2d_nonsep, t.clone(), filts, msp)
             else:
                 t = torch.tensor(x, dtype=tdt)       # (n, C, 4, h, w)
-                a = lib(ll.sfb2d, t[:, :, 0], t[:, :, 1], t[:, :, 2], t[:, :, 3], filts, mode)
-                b = lib(ll.sfb2d_nonsep, t.clone(), filts, mode)
+                a = lib(ll.sfb2d, t[:, :, 0], t[:, :, 1], t[:, :, 2], t[:, :, 3], filts, msp)
+                b = lib(ll.sfb2d_nonsep, t.clone(), filts, msp)
         return a, b
 
     if ana:
